@@ -1,115 +1,86 @@
 package massdb_v1
 
-// Native replay of C10 counterexamples at bit length 8 (smallest convenient real size): a real plot file pair on a
-// temporary directory, the recorded checkpoint of map A set to the model's value, then the real Plot() under a watchdog;
-// the result is compared with an uninterrupted plot of the same key.
+// Native replay of the C07 record-alignment counterexample. The solver's counterexample lives at toy scale (bit length 7,
+// 3-byte records, 32-byte read buffer). Its production counterpart (bit lengths 34..40: 10-byte pairs, 2^26-byte buffer,
+// >= 80 GiB of map A, 2^33 loop iterations) cannot be run here, so the driver runs the REAL prePlotWork/plotWork of the
+// current tree with real SHA-256 P/FB, real files and the real bufio.Reader at bit length 18 (3-byte records, 768 KiB of
+// map A), with one constant scaled by the replay overlay exactly as in the model: minMapABufMem 64 MiB -> 4 KiB, so that
+// map A again spans several buffer fills and the pair size (6) does not divide the buffer size. Map B is compared with
+// the construction computed here from map A.
 
 import (
 	"bytes"
-	"encoding/binary"
 	"encoding/json"
 	"fmt"
 	"os"
-	"regexp"
-	"strconv"
-	"strings"
 	"testing"
-	"time"
 
+	"github.com/massnetorg/mass-core/poc/pocutil"
 	"github.com/massnetorg/mass-core/pocec"
 )
 
-type vsModel struct {
-	Harness    string            `json:"harness"`
-	Obligation string            `json:"obligation"`
-	Case       string            `json:"case"`
-	Model      map[string]string `json:"model"`
-}
-
-func (m *vsModel) caseInt(label string) int {
-	re := regexp.MustCompile(label + `=(\d+)`)
-	if s := re.FindStringSubmatch(m.Case); s != nil {
-		n, _ := strconv.Atoi(s[1])
-		return n
-	}
-	return -1
-}
-
-func vsPlotToEnd(t *testing.T, mdb *MassDBV1, limit time.Duration) bool {
-	done := make(chan error, 1)
-	go func() { done <- <-mdb.Plot() }()
-	select {
-	case err := <-done:
-		if err != nil {
-			t.Log("plot error:", err)
-		}
-		return true
-	case <-time.After(limit):
-		return false
-	}
-}
-
-func TestVsReplayC10(t *testing.T) {
+func TestVsReplayC07(t *testing.T) {
 	raw, err := os.ReadFile(os.Getenv("VS_MODEL"))
 	if err != nil {
 		t.Fatal(err)
 	}
-	var m vsModel
+	var m struct {
+		Harness, Obligation string
+	}
 	json.Unmarshal(raw, &m)
-	const bl = 8
+	if m.Harness != "plot_b_record_align" {
+		fmt.Println("VSREPLAY-NO-SCENARIO: no native scenario for", m.Harness, m.Obligation)
+		return
+	}
+	const bl = 18
+	rs := pocutil.RecordSize(bl)
+	if minMapABufMem >= (1<<bl)*rs {
+		fmt.Println("VSREPLAY-NO-SCENARIO: read buffer not scaled below the size of map A")
+		return
+	}
 	sk, _ := pocec.PrivKeyFromBytes(pocec.S256(), bytes.Repeat([]byte{7}, 32))
-	pk := sk.PubKey()
-	// reference: uninterrupted plot
-	dirRef, dir := t.TempDir(), t.TempDir()
-	ref, err := NewMassDBV1(dirRef, 1, pk, bl)
+	mdb, err := NewMassDBV1(t.TempDir(), 1, sk.PubKey(), bl)
 	if err != nil {
 		t.Fatal(err)
 	}
-	if !vsPlotToEnd(t, ref, 60*time.Second) {
-		t.Fatal("reference plot did not finish")
-	}
-	refB, _ := os.ReadFile(ref.filePathB)
-	// interrupted state: recorded checkpoint c on map A (what a completed first window leaves is 1)
-	c := uint64(1)
-	switch m.caseInt("resume") {
-	case 0:
-		c = 0
-	case 2:
-		c = []uint64{2, 17, 34, 63}[m.caseInt("checkpoint")]
-		if v, ok := m.Model["checkpoint"]; ok {
-			c, _ = strconv.ParseUint(strings.TrimPrefix(v, "0x"), 16, 64)
-		}
-	}
-	mdb, err := NewMassDBV1(dir, 1, pk, bl)
-	if err != nil {
+	mdb.stopPlotCh = make(chan struct{})
+	cache := NewMemCache(0)
+	if err := mdb.prePlotWork(cache); err != nil {
 		t.Fatal(err)
 	}
-	// records below the checkpoint must already be final: produce them by plotting a copy fully, then rewinding
-	var b8 [8]byte
-	binary.LittleEndian.PutUint64(b8[:], c)
-	if c > 0 {
-		// write the construction for slots < c by running the pre-plot once, then rewind the checkpoint
-		cache := NewMemCache(0)
-		mdb.stopPlotCh = make(chan struct{})
-		if err := mdb.prePlotWork(cache); err != nil {
-			t.Fatal(err)
+	fileA, _ := os.ReadFile(mdb.filePathA)
+	a := fileA[LenMetaInfo:]
+	volume, half := 1<<bl, 1<<(bl-1)
+	pkh := mdb.HashMapA.pkHash
+	ref := make([]byte, 2*volume*rs)
+	zero := make([]byte, rs)
+	for y := 0; y < half; y++ {
+		x, xp := a[2*y*rs:(2*y+1)*rs], a[(2*y+1)*rs:(2*y+2)*rs]
+		if bytes.Equal(x, zero) || bytes.Equal(xp, zero) {
+			continue
 		}
-		// wipe slots >= c so that only the durable prefix survives
-		zero := make([]byte, (1<<bl)-int(c))
-		mdb.HashMapA.data.WriteAt(zero, int64(LenMetaInfo)+int64(c))
+		z := int(pocutil.FB(x, xp, bl, pkh))
+		copy(ref[2*z*rs:], x)
+		copy(ref[(2*z+1)*rs:], xp)
+		zp := int(pocutil.FB(xp, x, bl, pkh))
+		copy(ref[2*zp*rs:], xp)
+		copy(ref[(2*zp+1)*rs:], x)
 	}
-	mdb.HashMapA.data.WriteAt(b8[:], PosCheckpoint)
-	mdb.HashMapA.checkpoint = 0
-	fmt.Printf("replaying resume from recorded checkpoint %d at bl=%d\n", c, bl)
-	finished := vsPlotToEnd(t, mdb, 20*time.Second)
-	if !finished {
-		fmt.Println("VSREPLAY-CONFIRMED: resumed plot does not terminate within 20s (an uninterrupted plot takes milliseconds): window loop stuck")
+	if err := mdb.plotWork(cache); err != nil {
+		fmt.Println("VSREPLAY-CONFIRMED: plotWork failed:", err)
 		return
 	}
-	gotB, _ := os.ReadFile(mdb.filePathB)
-	if !bytes.Equal(gotB[LenMetaInfo:], refB[LenMetaInfo:]) {
-		fmt.Println("VSREPLAY-CONFIRMED: resumed plot produced a different table than the uninterrupted plot")
+	fileB, _ := os.ReadFile(mdb.filePathB)
+	b := fileB[LenMetaInfo:]
+	bad := 0
+	for z := 0; z < volume; z++ {
+		if !bytes.Equal(b[2*z*rs:(2*z+2)*rs], ref[2*z*rs:(2*z+2)*rs]) {
+			bad++
+		}
+	}
+	if bad > 0 {
+		fmt.Printf("VSREPLAY-CONFIRMED: map B differs from the construction in %d of %d entries (bit length %d, %d-byte records, %d-byte read buffer)\n", bad, volume, bl, rs, minMapABufMem)
 		return
 	}
-	fmt.Println("VSREPLAY-NOT-REPRODUCED: resumed plot terminated with the same table")
+	fmt.Println("VSREPLAY-NOT-REPRODUCED: map B equals the construction")
 }
